@@ -172,6 +172,7 @@ def write_evidence(
         "faults_fired": dict(sorted(agg["faults"].items())),
         "probes": dict(sorted(agg["probes"].items())),
         "distinct_event_logs": len(agg["digests"]),
+        "event_log_set_digest": digest("\n".join(sorted(agg["digests"]))),
         "distinct_abstract_states": len(agg["states"]),
         "discarded_runs": dict(sorted(agg["discarded"].items())),
         "harness_errors": agg["harness_errors"],
